@@ -87,12 +87,12 @@ CHECKS = {
     text="Proved in Coq end to end over the whole of to_standard_form (bound rows, free-variable column surgery, slack/surplus naming, rhs sign normalisation, resizing, max flip): "
          "every non-negative solution of the standard form, read back by name with a free variable v as $p v - $m v, satisfies every row of the linear model and every variable's domain, "
          "and the standard form's objective row evaluates to the model's objective there, negated for max (C13_backward, C13_objective_row, with a non-vacuity example). "
-         "PARTIAL for the forward direction (every feasible point has a standard-form preimage): proved row by row (EqualityConstraint::new keeps the equation and yields b >= 0; slack/surplus, "
-         "free-variable split, objective flip), not yet over the whole conversion. Tie: to_standard_form is modelled completely and compared for exact equality "
+         "Conversely every point that satisfies the model's rows and domains is the read-back of a non-negative standard-form solution (C13_forward; premise: pairwise distinct column names, "
+         "evaluated together with the input well-formedness premise lin_okb on every tied implementation output). Tie: to_standard_form is modelled completely and compared for exact equality "
          "(variables, objective, flip, offset, every row) with LinearModel::into_standard_form through a guarded accessor on every run; forward transfer and objective preservation "
          "are evaluated on the implementation over a grid of original points.",
     design_ref="DESIGN.md section 4 / C13",
-    technique="Coq proof (backward transfer end to end; forward transfer row-level) + exact structural correspondence of the whole standard form + grid transfer oracle on the implementation",
+    technique="Coq proof (backward and forward transfer end to end over the whole conversion) + exact structural correspondence of the whole standard form + grid transfer oracle on the implementation",
     note=TB + " Genuine defect F9 (tolerant sign test left a tiny negative rhs) was repaired in /repo (fix: commit)."),
  "C14": dict(
     category="proof",
